@@ -387,6 +387,7 @@ func (endp *Endpoint) newSession(conn *smtp.Conn) *Session {
 		sessionCtx: context.Background(),
 	}
 
+	verifSession(s)
 	// Used in tests.
 	if conn == nil {
 		return s
